@@ -110,6 +110,25 @@ func overlayFor(repo, verif string, dirs []string, genDir string) (map[string]st
 			}
 		}
 	}
+	// store/sql runs over the in-memory stand-in for database/sql of harness/sql/vsql.go
+	for _, d := range dirs {
+		if d != "sql" {
+			continue
+		}
+		src, err := os.ReadFile(filepath.Join(repo, "store", "sql", "sql_store.go"))
+		if err != nil {
+			continue
+		}
+		out := strings.NewReplacer("*sql.DB", "*verifSQLDB", "sql.Open(", "verifSQLOpen(", "sql.ErrNoRows", "verifSQLErrNoRows").Replace(string(src))
+		if !strings.Contains(out, "sql.") {
+			out = strings.Replace(out, "\t\"database/sql\"\n", "\t_ \"database/sql\"\n", 1)
+		}
+		os.MkdirAll(filepath.Join(genDir, "sql_vdb"), 0o755)
+		gen := filepath.Join(genDir, "sql_vdb", "sql_store.go")
+		if err := os.WriteFile(gen, []byte(out), 0o644); err == nil {
+			ov[filepath.Join(repo, "store", "sql", "sql_store.go")] = gen
+		}
+	}
 	// store/file runs over the in-memory file system of harness/file/vfs.go: overlay copies of the CURRENT
 	// file_store.go / util.go with the package-os identifiers renamed (never committed)
 	for _, d := range dirs {
